@@ -1,5 +1,5 @@
 (* C16: master-server filters denote what was inserted; paging is complete. *)
-From GD Require Import Base.Prelude Model.Strings Model.Buffer Model.Net Model.Master Proofs.Str Spec.CaseEnc Spec.MasterSpec.
+From GD Require Import Base.Prelude Model.StrOps Model.Strings Model.Buffer Model.Net Model.Master Proofs.Str Spec.CaseEnc Spec.MasterSpec.
 From GD Require Import Proofs.BufferLemmas Proofs.ReadSpecs Proofs.Varint Proofs.ValveRoundtrip Proofs.ValveTransport.
 From Coq Require Import ZifyBool ZifyNat ZifyN.
 
